@@ -1,6 +1,7 @@
 """C17 - cw1: the admin set changes only by admins while mutable; freezing is permanent."""
 from ..engine import show
 from ..idioms import dispatch, entry_points, update_base, loaded_from
+from ..prims import is_rmw
 from .cw1common import SENDER, items, admin_cond, NB_SUB
 
 ID = "C17"
@@ -47,12 +48,12 @@ def run(ctx):
                             pol, _ = admin_cond(ctx, p, ADMIN, SENDER, before=i)
                             good = pol is True
                             why = "admin"
-                            if not good and e.item == ALW and e.key == SENDER and e.op == "update":
+                            if not good and e.item == ALW and e.key == SENDER and is_rmw(e) and e.op != "remove":
                                 base, fields = update_base(e.value)
                                 b = fields.get("balance")
                                 if set(fields) == {"balance"} and b and b[0] == "vfield" and b[2] == "Ok" and b[1][0] == "call" \
                                         and b[1][1] == NB_SUB and b[1][2][0] == ("field", base, "balance") \
-                                        and base == ("vfield", e.old, "Some", "0"):
+                                        and base in (("vfield", e.old, "Some", "0"), e.old):
                                     good = True
                                     why = "own spend"
                             ctx.ob("R17.4", key + "/%s %s in %s" % ("ALLOWANCES" if e.item == ALW else "PERMISSIONS", e.op, e.site[2]),
